@@ -250,3 +250,7 @@ def run(rep, facts, tier):
                   'range_inclusive(.., %s): an exclusive bound (%s) is used as an inclusive end without "- 1": the first sequence number after the range is covered too '
                   '(a still relevant change would be declared irrelevant)' % (term_str(hi)[:60], ', '.join(excl)), b.where(bb))
     rep.floor('R01.6', n, 3, 'calls of SequenceNumber/FragmentNumber::range_inclusive')
+
+    # ------------------------------------------------------------ R01.7 (shared with C14 R14.5)
+    from rules import numberset
+    numberset.run_rule(rep, fx, 'R01.7')
